@@ -363,20 +363,28 @@ impl<'a> Interpreter<'a> {
                 ByteCode::MkDict(size) => {
                     let mut map = HashMap::new();
 
+                    // a key that is not a string makes the map fail as a value, as it does when
+                    // the literal is built at compile time; a key that failed is that failure
+                    let mut failed = None;
                     for _ in 0..*size {
-                        let key = if let CelValue::String(key) = stack.pop_val()? {
-                            key
-                        } else {
-                            return Err(CelError::value("Only strings can be used as Object keys"));
-                        };
-
+                        let key = stack.pop_val()?;
                         // entries are popped last to first: keep the last entry of a repeated
                         // key, as the compile-time construction of a constant map does
                         let value = stack.pop_val()?;
-                        map.entry(key).or_insert(value);
+                        match key {
+                            CelValue::String(key) => {
+                                map.entry(key).or_insert(value);
+                            }
+                            err @ CelValue::Err(_) => failed = Some(err),
+                            _ => {
+                                failed = Some(CelValue::from_err(CelError::value(
+                                    "Only strings can be used as Object keys",
+                                )))
+                            }
+                        }
                     }
 
-                    stack.push_val(map.into());
+                    stack.push_val(failed.unwrap_or_else(|| map.into()));
                 }
                 ByteCode::Index => {
                     let index = stack.pop_val()?;
